@@ -3,6 +3,7 @@ CONSTANTS
   Locked = TRUE
   Bodies <- BodiesT
   Modes <- AllModes
+  Seconds <- NoSecond
   TickMs <- Ticks2
   MaxTicks = 6
   MaxPre = 0
